@@ -100,6 +100,9 @@ pub mod env {
     pub fn wal_only_entry_replayed(seg_max: [u64; 2], ts: u64) -> bool { crate::conn::wal_only_entry_replayed(seg_max, ts) }
     pub fn compact_then_recover(inside: [Option<redis_sim::replication::state::ReplicationDelta>; 3], outside: Option<redis_sim::replication::state::ReplicationDelta>, now: u64)
         -> (Option<redis_sim::replication::state::ReplicatedValue>, Option<redis_sim::replication::state::ReplicatedValue>, bool, u64) { crate::conn::compact_then_recover(inside.into_iter().flatten().collect(), outside, now) }
+    pub fn glue_apply(first: Option<redis_sim::replication::state::ReplicatedValue>, second: redis_sim::replication::state::ReplicatedValue)
+        -> (Option<redis_sim::replication::state::ReplicatedValue>, Option<u8>, Option<u8>, Option<u8>, bool) { crate::conn::glue_apply(first, second) }
+    pub fn clock_after_command(clock0: u64, which: u8) -> u64 { crate::conn::clock_after_command(clock0, which) }
     pub fn recover_plan(ids: &[u64], min_ts: &[u64], ckpt_last: Option<u64>) -> Vec<u64> { crate::conn::recover_plan(ids, min_ts, ckpt_last) }
     pub fn recovered_then_write(clock0: u64, recovered: redis_sim::replication::state::ReplicatedValue, nb: u8)
         -> (redis_sim::replication::lattice::LamportClock, Option<u8>) { crate::conn::recovered_then_write(clock0, recovered, nb) }
